@@ -1761,6 +1761,7 @@ class FileBuilder:
                 copy.deepcopy(operation.kwargs),
                 'the build_file* call for {:s}'.format(filename))
 
+            self._simple_operation_executor.forget_hash(filename)
             operation.file_comparison_result = (
                 self._noneable_file_comparison_result(
                     filename, operation.file_comparison))
